@@ -713,6 +713,11 @@ type Session struct {
 	// and every reader handed out after a successful Verify must behave as verified.
 	LayerLevel    bool
 	SkipEffective bool // SkipVerify was called while the layer had no reader yet
+	// Irregular: the TOC actually used lays the chunks out differently from the blob (an altered
+	// size / offset field): what the decoders yield then depends on read order in ways the model
+	// does not describe (C04's matter).  Operations are still run and the property oracle is still
+	// evaluated, but the op lines are written as comments (not compared with the model).
+	Irregular bool
 }
 
 func (s *Session) Close() {
@@ -902,6 +907,43 @@ func (s *Session) enumerate() error {
 			return ord[chunkKey(l[i].File.Name, l[i].Off)] < ord[chunkKey(l[j].File.Name, l[j].Off)]
 		})
 	}
+	// regular layout: every chunk sits where the builder put it, files are exactly their chunks
+	type pos struct{ off, inner, size int64 }
+	built := map[string]pos{}
+	for _, e := range s.B.Toc.Entries {
+		if (e.Type == "reg" && e.Size > 0) || e.Type == "chunk" {
+			name := strings.TrimPrefix(e.Name, "./")
+			built[chunkKey(name, e.ChunkOffset)] = pos{e.Offset, e.InnerOffset, entChunkSize(e, s.B.fileSize(e.Name))}
+		}
+	}
+	used := map[string]pos{}
+	if toc, _, err := s.B.parseTOC(s.Open.Blob, s.Open.Ext); err == nil && toc != nil {
+		for _, e := range toc.Entries {
+			if (e.Type == "reg" && e.Size > 0) || e.Type == "chunk" {
+				used[chunkKey(strings.TrimPrefix(e.Name, "./"), e.ChunkOffset)] = pos{e.Offset, e.InnerOffset, 0}
+			}
+		}
+	}
+	nchunks := 0
+	for _, f := range s.Files {
+		var sum int64
+		for _, c := range f.Chunks {
+			sum += c.Size
+			nchunks++
+			k := chunkKey(f.Name, c.Off)
+			b, ok1 := built[k]
+			u, ok2 := used[k]
+			if !ok1 || !ok2 || b.off != u.off || b.inner != u.inner || b.size != c.Size || c.Run < 0 {
+				s.Irregular = true
+			}
+		}
+		if sum != f.Size {
+			s.Irregular = true
+		}
+	}
+	if nchunks != len(built) {
+		s.Irregular = true
+	}
 	return nil
 }
 
@@ -910,6 +952,16 @@ func (s *Session) SetView(v *View) {
 	s.Cur = v
 	s.Src.Set(v.Blob)
 	s.setEx(v.Ext)
+}
+
+// emit writes an op line and the implementation's answer (as a comment for irregular sessions).
+func (s *Session) emit(op, res string) {
+	if s.Irregular {
+		s.Out.Comment("irregular-layout " + op + " -> " + res)
+		s.Out.Count("irregular-ops")
+		return
+	}
+	s.Out.Emit(op, res)
 }
 
 // NewLine is the `new` op of the driver.
@@ -1256,7 +1308,7 @@ func (s *Session) oracleAccepts(d digest.Digest) bool {
 func (s *Session) Verify(d digest.Digest) error {
 	arg := s.DigestArg(d)
 	err := s.VR.VerifyTOC(d)
-	s.Out.Emit(s.pfx()+"verify "+arg, okerr(err))
+	s.emit(s.pfx()+"verify "+arg, okerr(err))
 	s.Out.Count("verify-" + arg + "-" + okerr(err))
 	if err == nil {
 		if !s.oracleAccepts(d) {
@@ -1277,7 +1329,7 @@ func (s *Session) Skip() {
 		s.SkipEffective = true
 	}
 	s.VR.Skip()
-	s.Out.Emit(s.pfx()+"skip", "ok")
+	s.emit(s.pfx()+"skip", "ok")
 }
 
 // Prefetch = readAndCache of one chunk.
@@ -1297,7 +1349,7 @@ func (s *Session) Prefetch(c *Chunk) bool {
 			return false
 		}
 	}
-	s.Out.Emit(fmt.Sprintf("%sprefetch %d %c", s.pfx(), c.Gid, st), okerr(err))
+	s.emit(fmt.Sprintf("%sprefetch %d %c", s.pfx(), c.Gid, st), okerr(err))
 	s.Out.Count(fmt.Sprintf("prefetch-%c-%s", st, okerr(err)))
 	s.CheckCache("prefetch")
 	return true
@@ -1337,7 +1389,7 @@ func (s *Session) CacheAll(sel map[int]bool) error {
 	offs, cs := s.selection(sel)
 	items := s.items(cs)
 	err := s.VR.Cache(func(o int64) bool { return offs == nil || offs[o] })
-	s.Out.Emit(fmt.Sprintf("%scache %s cached=%s", s.pfx(), items, s.cachedList(cs)), okerr(err))
+	s.emit(fmt.Sprintf("%scache %s cached=%s", s.pfx(), items, s.cachedList(cs)), okerr(err))
 	s.Out.Count("cache-" + okerr(err))
 	s.CheckCache("cache")
 	return err
@@ -1356,7 +1408,7 @@ func (s *Session) CacheClone(v *View) bool {
 	mr2, err := s.MR.Clone(mk())
 	if err != nil {
 		err2 := s.VR.CacheReader(mk())
-		s.Out.Emit(s.pfx()+"clone.err", okerr(err2))
+		s.emit(s.pfx()+"clone.err", okerr(err2))
 		s.Out.Count("clone-refused")
 		return true
 	}
@@ -1401,7 +1453,7 @@ func (s *Session) CacheClone(v *View) bool {
 		s.Out.Count("clone-foreign-toc-matching")
 	}
 	err = s.VR.CacheReader(mk())
-	s.Out.Emit(fmt.Sprintf("%sclone %s cached=%s", s.pfx(), dash(strings.Join(items, ",")), s.cachedList(s.Chs)), okerr(err))
+	s.emit(fmt.Sprintf("%sclone %s cached=%s", s.pfx(), dash(strings.Join(items, ",")), s.cachedList(s.Chs)), okerr(err))
 	s.Out.Count("clone-" + v.Kind + "-" + okerr(err))
 	s.CheckCache("clone-prefetch")
 	return true
@@ -1434,7 +1486,7 @@ func (s *Session) Race(sel map[int]bool, d digest.Digest, pause func(who int)) (
 	s.Src.mu.Lock()
 	s.Src.Yield = nil
 	s.Src.mu.Unlock()
-	s.Out.Emit(fmt.Sprintf("r.race %s %s cached=%s", arg, items, s.cachedList(cs)),
+	s.emit(fmt.Sprintf("r.race %s %s cached=%s", arg, items, s.cachedList(cs)),
 		fmt.Sprintf("verify=%s cache=%s", okerr(verr), okerr(cerr)))
 	s.Out.Count(fmt.Sprintf("race-verify=%s-cache=%s", okerr(verr), okerr(cerr)))
 	if verr == nil {
@@ -1509,15 +1561,13 @@ func (s *Session) Read(f *File, off, n int64) error {
 	if err == nil {
 		data := p[:got]
 		s.checkData(f, off, data, "read")
-		if int64(got) != n {
-			res = fmt.Sprintf("ok short=%d/%d", got, n)
-		} else if s.cleanByCache(cs, f, off, data) {
+		if s.cleanByCache(s.touched(f, off, int64(got)), f, off, data) {
 			res = "ok clean"
 		} else {
 			res = "ok dirty"
 		}
 	}
-	s.Out.Emit(s.pfx()+"read "+steps, res)
+	s.emit(s.pfx()+"read "+steps, res)
 	s.Out.Count("read-" + strings.ReplaceAll(strings.SplitN(res, "=", 2)[0], " ", "-"))
 	s.CheckCache("read")
 	return err
@@ -1548,16 +1598,20 @@ func (s *Session) Pass(f *File, mergeBuf int64, workers int) error {
 		fd, cr, err = s.VR.Passthrough(ra, mergeBuf, workers)
 		if err == nil {
 			// what the kernel would serve from the fd
-			buf := make([]byte, f.Size+16)
+			var total int64
+			for _, c := range f.Chunks {
+				total += c.Size
+			}
+			buf := make([]byte, total+16)
 			n, _ := preadFull(int(fd), buf)
 			s.checkData(f, 0, buf[:n], "passthrough-fd")
-			if int64(n) != f.Size && s.disciplined() {
-				s.Out.Fail("altered-bytes-returned", fmt.Sprintf("%s: passthrough fd of %q serves %d bytes, file size %d", s.Tag, f.Name, n, f.Size))
+			if int64(n) != total && s.disciplined() {
+				s.Out.Fail(s.sig("altered-bytes-returned"), fmt.Sprintf("%s: passthrough fd of %q serves %d bytes, its chunks have %d", s.Tag, f.Name, n, total))
 			}
 			cr.Close()
 		}
 	}
-	s.Out.Emit(fmt.Sprintf("%spass %d %s %s", s.pfx(), f.Idx, kind, steps), okerr(err))
+	s.emit(fmt.Sprintf("%spass %d %s %s", s.pfx(), f.Idx, kind, steps), okerr(err))
 	s.Out.Count("pass-" + kind + "-" + okerr(err))
 	s.CheckCache("passthrough")
 	return err
@@ -1568,7 +1622,11 @@ func (s *Session) ReadFd(f *File) {
 	if s.hidden(f) {
 		return
 	}
-	b, ok := s.cacheBytes(s.VR.GenID(f.ID, 0, f.Size))
+	var total int64
+	for _, c := range f.Chunks {
+		total += c.Size
+	}
+	b, ok := s.cacheBytes(s.VR.GenID(f.ID, 0, total))
 	if ok && s.LayerLevel {
 		// an fd is only ever obtained through a file opened on the reader of the layer
 		if _, err := s.VR.OpenFile(f.ID); err != nil {
@@ -1581,7 +1639,7 @@ func (s *Session) ReadFd(f *File) {
 			s.UsedUnverified = true
 		}
 		s.checkData(f, 0, b, "whole-file-entry")
-		clean := int64(len(b)) == f.Size
+		clean := int64(len(b)) == total
 		for _, c := range f.Chunks {
 			if !clean || classify(b[c.Off:c.Off+c.Size], nil, c.Dgst) != 'g' {
 				clean = false
@@ -1594,6 +1652,6 @@ func (s *Session) ReadFd(f *File) {
 			res = "ok dirty"
 		}
 	}
-	s.Out.Emit(fmt.Sprintf("%sreadfd %d", s.pfx(), f.Idx), res)
+	s.emit(fmt.Sprintf("%sreadfd %d", s.pfx(), f.Idx), res)
 	s.Out.Count("readfd-" + strings.ReplaceAll(res, " ", "-"))
 }
